@@ -569,6 +569,90 @@ SCOPE = {
 }
 
 
+def equal_items_distinct_keys(L, prop):
+    """Items that compare equal but whose KEYS differ (the key looks at a field equality ignores): seeded random data,
+    the identical call made on the standard library; results compared object by object."""
+    import heapq  # noqa: PLC0415
+    from .driver import Accounting, Task  # noqa: PLC0415
+    from .instruments import Item  # noqa: PLC0415
+    out = []
+    rnd = random.Random(20261003)
+
+    def key(x):
+        return x.p          # Item equality looks at k only
+
+    def run(aw):
+        r = Task(aw, Accounting()).run()
+        return r[1] if r[0] == "done" else "raised:" + type(r[1]).__name__
+
+    def ids(xs):
+        return [(x.s, x.p) for x in xs] if isinstance(xs, (list, tuple)) else (xs.s, xs.p) if isinstance(xs, Item) else xs
+
+    for trial in range(60):
+        nsrc = rnd.choice([2, 3])
+        pool = sorted(rnd.sample(range(1, 40), rnd.randint(3, 9)))
+        srcs = [[] for _ in range(nsrc)]
+        for p_ in pool:
+            i = rnd.randrange(nsrc)
+            srcs[i].append(Item(i + 1, p_, rnd.choice([1, 1, 2])))      # few distinct k: runs of equal items
+        flat = [x for s_ in srcs for x in s_]
+        rnd.shuffle(flat)
+        if prop == "C01":
+            for rev in (False, True):
+                ss = [sorted(s_, key=key, reverse=rev) for s_ in srcs]
+                want = ids(list(heapq.merge(*ss, key=key, reverse=rev)))
+                got = ids(run(L.list(L.merge(*ss, key=key, reverse=rev))))
+                if want != got:
+                    out.append(("C01/merge/wrong-order+equal-items-with-distinct-keys", {"engine": "scenario", "reverse": rev, "expected": want, "observed": got}))
+        else:
+            import builtins  # noqa: PLC0415
+            calls = {
+                "sorted": (lambda: builtins.sorted(flat, key=key), lambda: L.sorted(flat, key=key)),
+                "min": (lambda: builtins.min(flat, key=key), lambda: L.min(flat, key=key)),
+                "max": (lambda: builtins.max(flat, key=key), lambda: L.max(flat, key=key)),
+                "nlargest": (lambda: heapq.nlargest(3, flat, key=key), lambda: L.nlargest(flat, 3, key=key)),
+                "nsmallest": (lambda: heapq.nsmallest(3, flat, key=key), lambda: L.nsmallest(flat, 3, key=key)),
+            }
+            for name, (tw, im) in calls.items():
+                want, got = ids(tw()), ids(run(im()))
+                if want != got:
+                    out.append((f"C02/{name}/wrong-result+equal-items-with-distinct-keys", {"engine": "scenario", "expected": want, "observed": got}))
+    seen, uniq = set(), []
+    for sig, d in out:
+        if sig not in seen:
+            seen.add(sig)
+            uniq.append((sig, d))
+    return uniq
+
+
+def tee_over_list(L):
+    """tee over a plain list that its owner edits while the children are at different positions: every child sees the
+    item the SOURCE handed out at that position (fetched once, buffered for the others) -- as with itertools.tee."""
+    import itertools  # noqa: PLC0415
+    from .driver import Accounting, Task  # noqa: PLC0415
+
+    def one(it):
+        r = Task(it.__anext__(), Accounting()).run()
+        return r[1] if r[0] == "done" else "end"
+
+    data = [1, 2, 3]
+    a, b = itertools.tee(data, 2)
+    want = [next(a)]
+    data[0] = 10
+    data[2] = 30
+    want += [next(b), next(b), next(a), next(a), next(b)]
+    data = [1, 2, 3]
+    try:
+        a, b = L.tee(data, n=2)
+        got = [one(a)]
+        data[0] = 10
+        data[2] = 30
+        got += [one(b), one(b), one(a), one(a), one(b)]
+    except Exception as ex:  # noqa: BLE001
+        got = repr(ex)
+    return want, got
+
+
 def aiter_failures(v):
     """The first use of an async iterable is asking it for its iterator: when THAT fails -- with whatever class of
     exception, AttributeError and TypeError included -- the same exception comes out of the tool (at the call or at the
@@ -711,6 +795,13 @@ def check(prop, tier, seed):
                 v.violation("C01/tee/number-of-children-differs-from-itertools", {"engine": "scenario", "cfg": {"n": n_}, "expected": {"children": want}, "observed": obs})
     if prop == "C06":
         aiter_failures(v)
+    if prop in ("C01", "C02"):
+        for sig_, d_ in equal_items_distinct_keys(tm.load_lib(), prop):
+            v.violation(sig_, d_)
+    if prop == "C01":
+        want_, got_ = tee_over_list(tm.load_lib())
+        if want_ != got_:
+            v.violation("C01/tee/children-over-an-edited-list-differ-from-itertools", {"engine": "scenario", "expected": want_, "observed": got_})
     if prop in ("C01", "C02", "C04", "C05", "C06"):
         sub["beyond_bounds"] = beyond_bounds(prop, tier, seed, v)
     if prop == "C19":
